@@ -10,38 +10,38 @@ Eval vm_compute in (report eon_program (one "fast_nonMarkov_SIS")).
 Eval vm_compute in (dead_report eon_program (one "fast_nonMarkov_SIS")).
 Eval vm_compute in (report eon_program (one "basic_discrete_SIS")).
 Eval vm_compute in (dead_report eon_program (one "basic_discrete_SIS")).
-Eval vm_compute in (report eon_program (one "SIR_heterogeneous_pairwise")).
-Eval vm_compute in (dead_report eon_program (one "SIR_heterogeneous_pairwise")).
-Eval vm_compute in (report eon_program (one "_dSIS_heterogeneous_pairwise_")).
-Eval vm_compute in (dead_report eon_program (one "_dSIS_heterogeneous_pairwise_")).
-Eval vm_compute in (report eon_program (one "SIR_individual_based")).
-Eval vm_compute in (dead_report eon_program (one "SIR_individual_based")).
-Eval vm_compute in (report eon_program (one "_dSIS_super_compact_pairwise_")).
-Eval vm_compute in (dead_report eon_program (one "_dSIS_super_compact_pairwise_")).
+Eval vm_compute in (report eon_program (one "_transform_to_node_history_")).
+Eval vm_compute in (dead_report eon_program (one "_transform_to_node_history_")).
+Eval vm_compute in (report eon_program (one "Attack_rate_discrete_from_graph")).
+Eval vm_compute in (dead_report eon_program (one "Attack_rate_discrete_from_graph")).
+Eval vm_compute in (report eon_program (one "_SIR_pair_based_initialize_edge_data")).
+Eval vm_compute in (dead_report eon_program (one "_SIR_pair_based_initialize_edge_data")).
+Eval vm_compute in (report eon_program (one "SIS_homogeneous_pairwise_from_graph")).
+Eval vm_compute in (dead_report eon_program (one "SIS_homogeneous_pairwise_from_graph")).
 Eval vm_compute in (report eon_program (one "SIS_super_compact_pairwise_from_graph")).
 Eval vm_compute in (dead_report eon_program (one "SIS_super_compact_pairwise_from_graph")).
-Eval vm_compute in (report eon_program (one "SIS_heterogeneous_meanfield")).
-Eval vm_compute in (dead_report eon_program (one "SIS_heterogeneous_meanfield")).
-Eval vm_compute in (report eon_program (one "SIS_individual_based")).
-Eval vm_compute in (dead_report eon_program (one "SIS_individual_based")).
-Eval vm_compute in (report eon_program (one "SIR_compact_effective_degree")).
-Eval vm_compute in (dead_report eon_program (one "SIR_compact_effective_degree")).
-Eval vm_compute in (report eon_program (one "EBCM")).
-Eval vm_compute in (dead_report eon_program (one "EBCM")).
-Eval vm_compute in (report eon_program (one "SIR_compact_pairwise_from_graph")).
-Eval vm_compute in (dead_report eon_program (one "SIR_compact_pairwise_from_graph")).
-Eval vm_compute in (report eon_program (one "_dSIR_heterogeneous_meanfield_")).
-Eval vm_compute in (dead_report eon_program (one "_dSIR_heterogeneous_meanfield_")).
+Eval vm_compute in (report eon_program (one "Attack_rate_discrete")).
+Eval vm_compute in (dead_report eon_program (one "Attack_rate_discrete")).
+Eval vm_compute in (report eon_program (one "get_Pnk")).
+Eval vm_compute in (dead_report eon_program (one "get_Pnk")).
+Eval vm_compute in (report eon_program (one "SIR_homogeneous_pairwise")).
+Eval vm_compute in (dead_report eon_program (one "SIR_homogeneous_pairwise")).
+Eval vm_compute in (report eon_program (one "Epi_Prob_cts_time")).
+Eval vm_compute in (dead_report eon_program (one "Epi_Prob_cts_time")).
+Eval vm_compute in (report eon_program (one "SIR_pair_based_pure_IC")).
+Eval vm_compute in (dead_report eon_program (one "SIR_pair_based_pure_IC")).
+Eval vm_compute in (report eon_program (one "_dSIS_individual_based_")).
+Eval vm_compute in (dead_report eon_program (one "_dSIS_individual_based_")).
 Eval vm_compute in (report eon_program (one "_get_rate_functions_")).
 Eval vm_compute in (dead_report eon_program (one "_get_rate_functions_")).
 Eval vm_compute in (report eon_program (one "_SIR_pair_based_initialize_node_data")).
 Eval vm_compute in (dead_report eon_program (one "_SIR_pair_based_initialize_node_data")).
-Eval vm_compute in (report eon_program (one "get_PGFDPrime")).
-Eval vm_compute in (dead_report eon_program (one "get_PGFDPrime")).
-Eval vm_compute in (report eon_program (one "SIS_heterogeneous_meanfield_from_graph")).
-Eval vm_compute in (dead_report eon_program (one "SIS_heterogeneous_meanfield_from_graph")).
-Eval vm_compute in (report eon_program (one "directed_percolate_network")).
-Eval vm_compute in (dead_report eon_program (one "directed_percolate_network")).
+Eval vm_compute in (report eon_program (one "get_PGF")).
+Eval vm_compute in (dead_report eon_program (one "get_PGF")).
+Eval vm_compute in (report eon_program (one "estimate_SIR_prob_size")).
+Eval vm_compute in (dead_report eon_program (one "estimate_SIR_prob_size")).
+Eval vm_compute in (report eon_program (one "percolate_network")).
+Eval vm_compute in (dead_report eon_program (one "percolate_network")).
 Eval vm_compute in (report eon_program (one "EBCM_discrete_uniform_introduction")).
 Eval vm_compute in (dead_report eon_program (one "EBCM_discrete_uniform_introduction")).
 Eval vm_compute in (report eon_program (one "SIS_compact_effective_degree")).
